@@ -55,6 +55,9 @@ def _bw_program(k, pre_mask):
     elif k == 2:
         h = a + b * n
         outs = [torch.stack([h.sum(), (h * h).sum() * c, c * c])]
+    elif k == 4:  # ONE 0-d output: a one-row Jacobian (the aggregator still decides whether it accepts it)
+        h = a * b
+        outs = [(h * c + n).sum() * c]
     else:
         h = b * c
         outs = [h[0] * a.sum(), h[1] + a[0] * n[0], (h * a).sum()]
@@ -100,14 +103,23 @@ def _snapshot(tensors):
 PRE_MASKS = [(0,), (1,), (1, 0)]
 
 
+def _chunk(spec):
+    """JSON-able chunk size specification -> the value passed to the library."""
+    if not isinstance(spec, str):
+        return spec
+    import torch
+
+    return {"np.int64(0)": np.int64(0), "np.int32(-1)": np.int32(-1), "tensor(0)": torch.tensor(0)}[spec]
+
+
 # ----------------------------------------------------------------------------- case generation
 def gen_cases(tier, seed):
     cases = []
     # ---- backward
-    for k in range(4):
+    for k in range(5):
         for pm in range(len(PRE_MASKS)):
             base = dict(ep="bw", prog=k, pre=pm)
-            for chunk in (0, -1):
+            for chunk in (0, -1, "np.int64(0)", "np.int32(-1)", "tensor(0)"):
                 for sub in ([0], [0, 1, 2]):
                     cases.append(dict(base, fault="chunk", chunk=chunk, valid=sub))
             cases.append(dict(base, fault="empty-tensors", valid=[0, 1, 2]))
@@ -137,7 +149,8 @@ def gen_cases(tier, seed):
         for nfeat in (1, 2):
             for pm in range(len(PRE_MASKS)):
                 base = dict(ep="mtl", ntasks=ntasks, nfeat=nfeat, pre=pm)
-                for chunk in (0, -1):
+                # non-positive chunk sizes also as NumPy integers and as a 0-d integer tensor (added after a seeded change whose check only knew int)
+                for chunk in (0, -1, "np.int64(0)", "np.int32(-1)", "tensor(0)"):
                     cases.append(dict(base, fault="chunk", chunk=chunk))
                 for explicit in (True, False):
                     b2 = dict(base, explicit=explicit)
@@ -190,7 +203,7 @@ def _run_bw(case):
     outs = P["outs"]
     m = sum(o.numel() for o in outs)
     valid = None if case["valid"] is None else [P["valid"][i] for i in case["valid"]]
-    kw = dict(tensors=outs, aggregator=UPGrad(), inputs=valid, parallel_chunk_size=case.get("chunk"))
+    kw = dict(tensors=outs, aggregator=UPGrad(), inputs=valid, parallel_chunk_size=_chunk(case.get("chunk")))
     f = case["fault"]
     rank = None
     would_write = valid is None or len(valid) > 0
@@ -248,7 +261,7 @@ def _run_mtl(case):
     nt = case["ntasks"]
     kw = dict(losses=list(P["losses"]), features=list(P["feats"]), aggregator=UPGrad(),
               tasks_params=[list(t) for t in P["tparams"]], shared_params=list(P["shared"]),
-              parallel_chunk_size=case.get("chunk"))
+              parallel_chunk_size=_chunk(case.get("chunk")))
     if case.get("explicit") is False:
         kw["tasks_params"] = None
         kw["shared_params"] = None
